@@ -177,26 +177,28 @@ def w_decode(T, bd, full, mi):
     return name, r'''
     #[kani::proof]
     #[kani::unwind(5)]
+    #[kani::stub(yuvxyb_math::matrix::Matrix::mul_arr, yuvxyb_math::matrix::verif_stub_mul_arr)]
     fn %(name)s() {
         let in_mi: u8 = %(mi)d;      // the matrix is a concrete parameter (one instance per matrix) so that its coefficients fold to constants
         let in_y: %(T)s = kani::any(); let in_u: %(T)s = kani::any(); let in_v: %(T)s = kani::any();
         %(assume)s
         let c = cfg(%(bd)d, %(full)s, MC_STD[in_mi as usize]);
-        let yuv = Yuv::new(Frame { planes: [Plane::from_slice(&[in_y], 1), Plane::from_slice(&[in_u], 1), Plane::from_slice(&[in_v], 1)] }, c).unwrap();
+        let yuv = %(ctor)s(Frame { planes: [Plane::from_slice(&[in_y], 1), Plane::from_slice(&[in_u], 1), Plane::from_slice(&[in_v], 1)] }, c)%(unwrap)s;
         let got = crate::Rgb::try_from(&yuv).unwrap();
-        let m = color::get_yuv_to_rgb_matrix(c).unwrap().values();
         let (ls, lo) = get_scale_offset::<true>(%(bd)d, %(full)s, false);
         let (cs, co) = get_scale_offset::<true>(%(bd)d, %(full)s, true);
         let p = [to_f32_luma(in_y, ls, lo), to_f32_chroma(in_u, cs, co), to_f32_chroma(in_v, cs, co)];
+        // Matrix::mul_arr is replaced on both sides by the same pure bit-mixing stand-in (its arithmetic is the S-lemma)
+        let e = color::get_yuv_to_rgb_matrix(c).unwrap().mul_arr(p);
         for i in 0..3 {
-            let e = m[i][0] * p[0] + (m[i][1] * p[1] + m[i][2] * p[2]);
-            assert!(got.data()[0][i].to_bits() == e.to_bits(), "decoded component == row i of M applied to the normalised (Y,U,V), evaluated m0*p0+(m1*p1+m2*p2) in f32");
+            assert!(got.data()[0][i].to_bits() == e[i].to_bits(), "decoded pixel == mul_arr(get_yuv_to_rgb_matrix(cfg), [luma(Y), chroma(U), chroma(V)])");
         }
         assert!(got.data().len() == 1 && got.width() == 1 && got.height() == 1, "dimensions preserved");
         assert!(got.transfer() == TC::BT1886 && got.primaries() == CP::BT709, "labels copied");
         kani::cover!(got.data()[0][0] > 0.25 && got.data()[0][0] < 0.75, "mid-range output explored");
     }
-''' % dict(name=name, T=T, bd=bd, full="true" if full else "false", assume=assume, mi=mi)
+''' % dict(name=name, T=T, bd=bd, full="true" if full else "false", assume=assume, mi=mi,
+           ctor="crate::yuv::verif_yuv_unchecked" if (T == "u16" and bd < 16) else "Yuv::new", unwrap="" if (T == "u16" and bd < 16) else ".unwrap()")
 
 
 def w_encode(T, bd, full, mi):
@@ -204,20 +206,20 @@ def w_encode(T, bd, full, mi):
     return name, r'''
     #[kani::proof]
     #[kani::unwind(66)]
+    #[kani::stub(yuvxyb_math::matrix::Matrix::mul_arr, yuvxyb_math::matrix::verif_stub_mul_arr)]
     fn %(name)s() {
         let in_mi: u8 = %(mi)d;
         let in_r: f32 = kani::any(); let in_g: f32 = kani::any(); let in_b: f32 = kani::any();
         let c = cfg(%(bd)d, %(full)s, MC_STD[in_mi as usize]);
         let rgb = crate::Rgb::new(vec![[in_r, in_g, in_b]], 1, 1, TC::BT1886, CP::BT709).unwrap();
         let got = Yuv::<%(T)s>::try_from((&rgb, c)).unwrap();
-        let m = color::get_rgb_to_yuv_matrix(c).unwrap().values();
         let (ls, lo) = get_scale_offset::<false>(%(bd)d, %(full)s, false);
         let (cs, co) = get_scale_offset::<false>(%(bd)d, %(full)s, true);
-        let q = [m[0][0] * in_r + (m[0][1] * in_g + m[0][2] * in_b), m[1][0] * in_r + (m[1][1] * in_g + m[1][2] * in_b), m[2][0] * in_r + (m[2][1] * in_g + m[2][2] * in_b)];
+        let q = color::get_rgb_to_yuv_matrix(c).unwrap().mul_arr([in_r, in_g, in_b]);   // stand-in on both sides, see S-lemma
         let e0: %(T)s = from_f32_luma(q[0], ls, lo, %(bd)d);
         let e1: %(T)s = from_f32_chroma(q[1], cs, co, %(bd)d, %(full)s);
         let e2: %(T)s = from_f32_chroma(q[2], cs, co, %(bd)d, %(full)s);
-        assert!(got.data()[0].p(0, 0) == e0, "Y plane == luma quantiser of row 0 of M applied to the pixel");
+        assert!(got.data()[0].p(0, 0) == e0, "Y plane == luma quantiser of mul_arr(get_rgb_to_yuv_matrix(cfg), pixel)[0]");
         assert!(got.data()[1].p(0, 0) == e1, "U plane == chroma quantiser of row 1");
         assert!(got.data()[2].p(0, 0) == e2, "V plane == chroma quantiser of row 2");
         assert!(got.config() == c, "output carries exactly the requested config");
@@ -225,6 +227,27 @@ def w_encode(T, bd, full, mi):
         kani::cover!(in_r > 0.5 && in_r < 1.0 && in_g > 0.1 && in_g < 0.3, "in-gamut pixel explored");
     }
 ''' % dict(name=name, T=T, bd=bd, full="true" if full else "false", mi=mi)
+
+
+def s_lemma(row):
+    """the real Matrix::mul_arr is the straight-line f32 expression m0*p0 + (m1*p1 + m2*p2) (non-FMA build)"""
+    name = "k_yr_s_row%d" % row
+    rows = ["yuvxyb_math::RowVector::new(0.578125, -1.40625, 0.171875)", "yuvxyb_math::RowVector::new(-0.078125, 1.0, 1.921875)", "yuvxyb_math::RowVector::new(1.234375, 0.25, -0.609375)"]
+    rows[row] = "yuvxyb_math::RowVector::new(a[0], a[1], a[2])"
+    return name, r'''
+    #[kani::proof]
+    fn %(name)s() {
+        let k0: i8 = kani::any(); let k1: i8 = kani::any(); let k2: i8 = kani::any();
+        let a = [(k0 as f32) * 0.015625, (k1 as f32) * 0.015625, (k2 as f32) * 0.015625];
+        let m = yuvxyb_math::Matrix::new(%(r0)s, %(r1)s, %(r2)s);
+        let in_p0: f32 = kani::any(); let in_p1: f32 = kani::any(); let in_p2: f32 = kani::any();
+        kani::assume(in_p0 >= -2.0 && in_p0 <= 2.0 && in_p1 >= -2.0 && in_p1 <= 2.0 && in_p2 >= -2.0 && in_p2 <= 2.0);
+        let w = m.mul_arr([in_p0, in_p1, in_p2]);
+        let e = a[0] * in_p0 + (a[1] * in_p1 + a[2] * in_p2);
+        assert!(w[%(row)d].to_bits() == e.to_bits(), "mul_arr row == m0*p0 + (m1*p1 + m2*p2) evaluated in f32");
+        kani::cover!(k0 == 100 && k2 == -77, "non-trivial coefficients explored");
+    }
+''' % dict(name=name, row=row, r0=rows[0], r1=rows[1], r2=rows[2])
 
 
 # ------------------------------------------------------------------ glue
